@@ -17,6 +17,8 @@ SPACE_S = "\t\n\x0c \r"
 LETTERS = "abcdefghijklmnopqrstuvwxyzABCDEFGHIJKLMNOPQRSTUVWXYZ"
 LETTERS_SET = frozenset(LETTERS)
 CHARACTERS, SPACECHARS, STARTTAG, ENDTAG, PARSEERROR = 1, 2, 3, 4, 7
+COMMENT = 6
+DOCTYPE = 0
 
 
 # ---- inputs ------------------------------------------------------------------------------------------
@@ -39,6 +41,8 @@ def tokenizer(S, state, token="tag"):
         t.fields["currentToken"] = tag_token(S, True)
     elif token == "any":
         t.fields["currentToken"] = S.one_of(None, lambda: tag_token(S, False))
+    elif token == "comment":
+        t.fields["currentToken"] = S.dict({"type": COMMENT, "data": S.str("commentdata")})
     t.fields["state"] = S.method(t, state)
     return t
 
@@ -895,3 +899,290 @@ class EmitCurrentToken:
             ok = ok and has_key(data, pair[0]) and data[pair[0]] == first
             k = k + 1
         return ok
+
+
+
+# ---- comment states (13.2.5.43-52) ---------------------------------------------------------------------------
+# html5lib has no "reconsume in the comment state" steps: where the standard appends something and reconsumes, the
+# code appends that and what the comment state would append for the same character; the contracts state the
+# composite (comment data and next state after the character has been dealt with).  The standard's
+# comment-less-than-sign states only raise parse errors and append the characters they see, which is what the
+# comment state's ordinary branch does here.
+def comment_step(old, self, state, suffix, rest):
+    """still the same comment token, its data grown by `suffix`; nothing emitted but parse errors"""
+    toks = new_tokens(old, self)
+    return (method_name(self.state) == state and len(others(toks)) == 0 and text_of(toks) == ""
+            and same_object(self.currentToken, old.self.currentToken) and self.currentToken["type"] == COMMENT
+            and self.currentToken["data"] == old.self.currentToken["data"] + suffix and view(self.stream) == rest)
+
+
+def comment_emitted(old, self, suffix, rest):
+    toks = new_tokens(old, self)
+    o = others(toks)
+    return (method_name(self.state) == "dataState" and text_of(toks) == "" and len(o) == 1
+            and same_object(o[0], old.self.currentToken) and o[0]["type"] == COMMENT
+            and o[0]["data"] == old.self.currentToken["data"] + suffix and view(self.stream) == rest)
+
+
+def nul_or(c):
+    return "\ufffd" if c == "\u0000" else c
+
+
+def spec_comment_start(old, self, v, c):
+    if c == "":
+        return comment_emitted(old, self, "", "")
+    if c == "-":
+        return comment_step(old, self, "commentStartDashState", "", v[1:])
+    if c == ">":
+        return comment_emitted(old, self, "", v[1:])
+    return comment_step(old, self, "commentState", nul_or(c), v[1:])          # reconsumed in the comment state
+
+
+def spec_comment_start_dash(old, self, v, c):
+    if c == "":
+        return comment_emitted(old, self, "", "")
+    if c == "-":
+        return comment_step(old, self, "commentEndState", "", v[1:])
+    if c == ">":
+        return comment_emitted(old, self, "", v[1:])
+    return comment_step(old, self, "commentState", "-" + nul_or(c), v[1:])
+
+
+def spec_comment(old, self, v, c):
+    if c == "":
+        return comment_emitted(old, self, "", "")
+    if c == "-":
+        return comment_step(old, self, "commentEndDashState", "", v[1:])
+    if c == "\u0000":
+        return comment_step(old, self, "commentState", "\ufffd", v[1:])
+    # a non-empty run of ordinary characters is appended; it stops before '-' or U+0000 at the latest
+    toks = new_tokens(old, self)
+    grown = self.currentToken["data"]
+    before = old.self.currentToken["data"]
+    rest = view(self.stream)
+    if not (method_name(self.state) == "commentState" and len(others(toks)) == 0 and text_of(toks) == ""
+            and same_object(self.currentToken, old.self.currentToken) and self.currentToken["type"] == COMMENT):
+        return False
+    if not grown.startswith(before):
+        return False
+    run = grown[len(before):]
+    return run != "" and run + rest == v and no_chars(run[1:], "-\u0000")
+
+
+def spec_comment_end_dash(old, self, v, c):
+    if c == "":
+        return comment_emitted(old, self, "", "")
+    if c == "-":
+        return comment_step(old, self, "commentEndState", "", v[1:])
+    return comment_step(old, self, "commentState", "-" + nul_or(c), v[1:])
+
+
+def spec_comment_end(old, self, v, c):
+    if c == "":
+        return comment_emitted(old, self, "", "")
+    if c == ">":
+        return comment_emitted(old, self, "", v[1:])
+    if c == "!":
+        return comment_step(old, self, "commentEndBangState", "", v[1:])
+    if c == "-":
+        return comment_step(old, self, "commentEndState", "-", v[1:])
+    return comment_step(old, self, "commentState", "--" + nul_or(c), v[1:])
+
+
+def spec_comment_end_bang(old, self, v, c):
+    if c == "":
+        return comment_emitted(old, self, "", "")
+    if c == "-":
+        return comment_step(old, self, "commentEndDashState", "--!", v[1:])
+    if c == ">":
+        return comment_emitted(old, self, "", v[1:])
+    return comment_step(old, self, "commentState", "--!" + nul_or(c), v[1:])
+
+
+@contract(TOK + ".commentStartState")
+class CommentStartState:
+    props = ("C02",)
+    modular = False
+
+    def inputs(S):
+        return dict(self=tokenizer(S, "commentStartState", "comment"))
+
+    def call(i):
+        return run_state(i, "commentStartState")
+
+    @ensures("C02")
+    def follows_the_standard(old, self, result):
+        v = view(old.self.stream)
+        if result is not True:
+            return False
+        return spec_comment_start(old, self, v, v[:1])
+
+
+@contract(TOK + ".commentStartDashState")
+class CommentStartDashState:
+    props = ("C02",)
+    modular = False
+
+    def inputs(S):
+        return dict(self=tokenizer(S, "commentStartDashState", "comment"))
+
+    def call(i):
+        return run_state(i, "commentStartDashState")
+
+    @ensures("C02")
+    def follows_the_standard(old, self, result):
+        v = view(old.self.stream)
+        if result is not True:
+            return False
+        return spec_comment_start_dash(old, self, v, v[:1])
+
+
+@contract(TOK + ".commentState")
+class CommentState:
+    props = ("C02",)
+    modular = False
+
+    def inputs(S):
+        return dict(self=tokenizer(S, "commentState", "comment"))
+
+    def call(i):
+        return run_state(i, "commentState")
+
+    @ensures("C02")
+    def follows_the_standard(old, self, result):
+        v = view(old.self.stream)
+        if result is not True:
+            return False
+        return spec_comment(old, self, v, v[:1])
+
+
+@contract(TOK + ".commentEndDashState")
+class CommentEndDashState:
+    props = ("C02",)
+    modular = False
+
+    def inputs(S):
+        return dict(self=tokenizer(S, "commentEndDashState", "comment"))
+
+    def call(i):
+        return run_state(i, "commentEndDashState")
+
+    @ensures("C02")
+    def follows_the_standard(old, self, result):
+        v = view(old.self.stream)
+        if result is not True:
+            return False
+        return spec_comment_end_dash(old, self, v, v[:1])
+
+
+@contract(TOK + ".commentEndState")
+class CommentEndState:
+    props = ("C02",)
+    modular = False
+
+    def inputs(S):
+        return dict(self=tokenizer(S, "commentEndState", "comment"))
+
+    def call(i):
+        return run_state(i, "commentEndState")
+
+    @ensures("C02")
+    def follows_the_standard(old, self, result):
+        v = view(old.self.stream)
+        if result is not True:
+            return False
+        return spec_comment_end(old, self, v, v[:1])
+
+
+@contract(TOK + ".commentEndBangState")
+class CommentEndBangState:
+    props = ("C02",)
+    modular = False
+
+    def inputs(S):
+        return dict(self=tokenizer(S, "commentEndBangState", "comment"))
+
+    def call(i):
+        return run_state(i, "commentEndBangState")
+
+    @ensures("C02")
+    def follows_the_standard(old, self, result):
+        v = view(old.self.stream)
+        if result is not True:
+            return False
+        return spec_comment_end_bang(old, self, v, v[:1])
+
+
+# ---- bogus comment state (13.2.5.41) and markup declaration open state (13.2.5.42) -------------------------------
+@contract(TOK + ".bogusCommentState")
+class BogusCommentState:
+    props = ("C02",)
+    modular = False
+
+    def inputs(S):
+        return dict(self=tokenizer(S, "bogusCommentState", "any"))
+
+    def call(i):
+        return run_state(i, "bogusCommentState")
+
+    @ensures("C02")
+    def follows_the_standard(old, self, result):
+        # everything up to the next '>' (or the end of input) becomes the data of a new comment token, with U+0000
+        # replaced; the '>' is consumed; the data state follows
+        v = view(old.self.stream)
+        toks = new_tokens(old, self)
+        o = others(toks)
+        if not (result is True and method_name(self.state) == "dataState" and text_of(toks) == "" and len(o) == 1):
+            return False
+        if not (o[0]["type"] == COMMENT and is_str(o[0]["data"])):
+            return False
+        rest = view(self.stream)
+        if ">" not in v:
+            return rest == "" and o[0]["data"] == v.replace("\u0000", "\ufffd")
+        if not v.endswith(">" + rest):
+            return False
+        raw = remove_suffix(v, ">" + rest)
+        return ">" not in raw and o[0]["data"] == raw.replace("\u0000", "\ufffd")
+
+
+DOCTYPE_LETTERS = (("d", "D"), ("o", "O"), ("c", "C"), ("t", "T"), ("y", "Y"), ("p", "P"), ("e", "E"))
+
+
+def is_doctype_keyword(v):
+    for i in range(7):
+        if v[i:i + 1] not in DOCTYPE_LETTERS[i]:
+            return False
+    return True
+
+
+@contract(TOK + ".markupDeclarationOpenState")
+class MarkupDeclarationOpenState:
+    props = ("C02",)
+    modular = False
+
+    def inputs(S):
+        t = tokenizer(S, "markupDeclarationOpenState", "any")
+        t.fields["parser"] = None            # stand-alone tokenizer: no adjusted current node, so no CDATA sections
+        return dict(self=t)
+
+    def call(i):
+        return run_state(i, "markupDeclarationOpenState")
+
+    @ensures("C02")
+    def follows_the_standard(old, self, result):
+        v = view(old.self.stream)
+        toks = new_tokens(old, self)
+        if not (result is True and len(others(toks)) == 0 and text_of(toks) == ""):
+            return False
+        rest = view(self.stream)
+        if v.startswith("--"):
+            t = self.currentToken
+            return (method_name(self.state) == "commentStartState" and rest == v[2:] and is_dict(t)
+                    and not same_object(t, old.self.currentToken) and t["type"] == COMMENT and t["data"] == "")
+        if is_doctype_keyword(v):
+            t = self.currentToken
+            return (method_name(self.state) == "doctypeState" and rest == v[7:] and is_dict(t)
+                    and not same_object(t, old.self.currentToken) and t["type"] == DOCTYPE and t["name"] == ""
+                    and t["publicId"] is None and t["systemId"] is None and t["correct"] is True)
+        # anything else (incl. "[CDATA[" outside foreign content): bogus comment, nothing consumed
+        return method_name(self.state) == "bogusCommentState" and rest == v and token_untouched(old, self)
